@@ -128,7 +128,9 @@ def run(ctx):
         if len(tops) < 3:
             continue
         made += 1
-        layers = c05.partitions(rng, tops, rng.randint(2, min(4, len(tops))), kinds="names")
+        # layers defined by name lists, or some by name list and some by regular expression (the rule then names
+        # layers of both kinds in one call)
+        layers = c05.partitions(rng, tops, rng.randint(2, min(4, len(tops))), kinds=rng.choice(["names", "mixed"]))
         lspecs.append(layer_episode(rng, w, layers, 30))
     # --- plot labels
     vspecs = [label_episode(rng, random_world(rng, n_modules=rng.randint(6, 26), n_imports=rng.randint(0, 20)))
